@@ -34,9 +34,10 @@ VARIABLES l,       \* next event
           viols,   \* witnesses found (sequence)
           divs,    \* divergences found (sequence, capped)
           cnt,     \* counters: [name |-> Nat]
-          flags    \* antecedents seen in the current run (set of strings)
+          flags,   \* antecedents seen in the current run (set of strings)
+          vtag     \* per variable: how it was last written ("plain" | "closure" | "del" | "cond")
 
-tvars == <<l, k, vars, prog, run, mode, viols, divs, cnt, flags>>
+tvars == <<l, k, vars, prog, run, mode, viols, divs, cnt, flags, vtag>>
 
 Ev == Rec[l]
 HasF(r, f) == f \in DOMAIN r
@@ -123,7 +124,7 @@ Abandon(b, what) ==
   /\ mode' = "skip"
   /\ k' = <<>>
   /\ cnt' = Bump(Bump(cnt, "events"), "skipped_runs")
-  /\ UNCHANGED <<vars, prog, run, flags>>
+  /\ UNCHANGED <<vars, prog, run, flags, vtag>>
 
 NewVars == IF HasF(Ev, "vars") THEN Ev.vars ELSE vars
 
@@ -142,6 +143,33 @@ ExitFlags(f, out) ==
 HasStatic(n) == HasF(n, "st")
 ChildErr(f) == \E j \in 1..Len(f.acc) : f.acc[j].o = "err"
 
+\* Expression results: reading something absent yields null at run time while its type says
+\* `undefined` ("accessing an undefined value upgrades it to null", type_def.rs), so for the value
+\* of an *expression* null is a member whenever the kind admits undefined.  (Stored values -
+\* fields of the event, elements of collections - are judged by InKind itself, where absence is
+\* what `undefined` means.)
+InKindExpr(v, kd) == InKind(v, kd) \/ (IsNull(v) /\ AdmitsUndefined(kd))
+
+\* How a variable was last written - lets findings about a stale compile-time type/constant name
+\* their cause: written inside a closure body, or modified by `del`.
+InClosure == \E j \in 1..(Len(k) - 1) :
+               k[j].n.k = "call" /\ HasF(k[j].n, "cl") /\ Len(k[j].acc) >= Len(k[j].n.a)
+TagNow == IF InClosure THEN "closure" ELSE "plain"
+SetTag(t, x, v) == [y \in (DOMAIN t) \cup {x} |-> IF y = x THEN v ELSE t[y]]
+TagTarget(t, tg) == IF tg.tk = "var" THEN SetTag(t, tg.x, TagNow) ELSE t
+VtagAfter(f, out) ==
+  LET n == f.n IN
+  CASE n.k = "asg" /\ IsOk(out) -> TagTarget(vtag, n.tg)
+    [] n.k = "asg2" /\ IsOk(out) /\ f.acc[1].o = "err" /\ n.ok.tk = "var" ->
+         \* `ok` now holds the default value: it must belong to ok's reported type (C08)
+         TagTarget(SetTag(vtag, n.ok.x, "dflt"), n.er)
+    [] n.k = "asg2" /\ IsOk(out) -> TagTarget(TagTarget(vtag, n.ok), n.er)
+    [] n.k = "call" /\ n.cls = "del" /\ n.q.tk = "var" /\ IsOk(out) -> SetTag(vtag, n.q.x, "del")
+    [] OTHER -> vtag
+TagOf(n) == IF n.k \in {"var", "qv"} /\ n.x \in DOMAIN vtag /\ vtag[n.x] # "plain" THEN ":" \o vtag[n.x] ELSE ""
+
+HoldsDefault(n) == n.k \in {"var", "qv"} /\ n.x \in DOMAIN vtag /\ vtag[n.x] = "dflt"
+
 \* A read of a variable that was never assigned at run time (the interpreter yields null) is
 \* distinguished from a read of an assigned variable whose value is outside its type.
 UnsetRead(f) == f.n.k \in {"var", "qv"} /\ f.n.x \notin DOMAIN vars
@@ -150,15 +178,15 @@ StaticFindings(f, out) ==
   LET n == f.n IN
   IF ~HasStatic(n) \/ "tainted" \in flags THEN <<>>
   ELSE
-   (IF IsOk(out) /\ ~InKind(out.v, n.st.kd)
-      THEN << [prop |-> (IF n.k = "call" THEN "C03" ELSE "C01"),
-               rule |-> (IF UnsetRead(f) THEN "UnsetVarReadKind"
-                         ELSE IF n.k \in {"var", "qv"} THEN "VarReadKind" ELSE "ExprKind"),
+   (IF IsOk(out) /\ ~InKindExpr(out.v, n.st.kd)
+      THEN << [prop |-> (IF n.k = "call" THEN "C03" ELSE IF HoldsDefault(n) THEN "C08" ELSE "C01"),
+               rule |-> (IF HoldsDefault(n) THEN "DefaultInOkKind" ELSE IF UnsetRead(f) THEN "UnsetVarReadKind"
+                         ELSE IF n.k \in {"var", "qv"} THEN "VarReadKind" \o TagOf(n) ELSE "ExprKind"),
                at |-> DescSt(n)] >>
       ELSE <<>>)
    \o
    (IF IsOk(out) /\ n.st.hc /\ out.v # n.st.c
-      THEN << [prop |-> "C12", rule |-> (IF UnsetRead(f) THEN "ConstOfUnsetVar" ELSE "ConstMatches"), at |-> DescSt(n)] >>
+      THEN << [prop |-> "C12", rule |-> (IF UnsetRead(f) THEN "ConstOfUnsetVar" ELSE "ConstMatches" \o TagOf(n)), at |-> DescSt(n)] >>
       ELSE <<>>)
    \o
    (IF out.o = "err" /\ ~ChildErr(f) /\ ~n.st.fal /\ ~(n.k = "call" /\ n.bang)
@@ -177,7 +205,7 @@ T_Prog ==
   /\ mode' = "idle" /\ k' = <<>> /\ vars' = <<>>
   /\ cnt' = Bump(cnt, "events")
   /\ l' = l + 1
-  /\ UNCHANGED <<run, viols, divs, flags>>
+  /\ UNCHANGED <<run, viols, divs, flags, vtag>>
 
 T_Start ==
   /\ l <= Len(Rec) /\ Ev.e = "start"
@@ -188,6 +216,7 @@ T_Start ==
   /\ flags' = {}
   /\ cnt' = Bump(Bump(cnt, "events"), "runs")
   /\ l' = l + 1
+  /\ vtag' = <<>>
   /\ UNCHANGED <<prog, viols, divs>>
 
 \* events of a run that was abandoned
@@ -196,7 +225,7 @@ T_Skip ==
   /\ mode' = (IF Ev.e = "end" THEN "idle" ELSE "skip")
   /\ cnt' = Bump(cnt, "events")
   /\ l' = l + 1
-  /\ UNCHANGED <<k, vars, prog, run, viols, divs, flags>>
+  /\ UNCHANGED <<k, vars, prog, run, viols, divs, flags, vtag>>
 
 T_Enter ==
   /\ l <= Len(Rec) /\ mode = "run" /\ Ev.e = "enter"
@@ -206,7 +235,7 @@ T_Enter ==
      THEN /\ vars' = NewVars
           /\ k' = Append(k, NewFrame(x.n, NewVars))
           /\ cnt' = Bump(cnt, "events")
-          /\ UNCHANGED <<prog, run, mode, viols, divs, flags>>
+          /\ UNCHANGED <<prog, run, mode, viols, divs, flags, vtag>>
      ELSE Abandon(Blame(Top), [got |-> "enter " \o Ev.k, expected |-> x.a])
 
 \* C13: after a closure-taking call, every parameter name holds what it held before
@@ -254,6 +283,7 @@ T_Exit ==
                              c3 == IF HasStatic(f.n) /\ IsOk(out) /\ f.n.st.hc THEN Bump(c2, "const_checks") ELSE c2
                              c4 == IF out.o = "err" /\ ~ChildErr(f) THEN Bump(c3, "err_exits") ELSE c3
                          IN c4
+               /\ vtag' = VtagAfter(f, out)
                /\ UNCHANGED <<prog, run, mode, divs>>
 
 \* C16: every target location touched at run time is covered by ProgramInfo
@@ -268,7 +298,7 @@ T_Target ==
           IF Ev.op = "get" /\ Ev.pre = "event" /\ Ev.p = <<>> /\ Len(k) = 1
           THEN /\ run' = [run EXCEPT !.probe = TRUE]
                /\ cnt' = Bump(cnt, "events")
-               /\ UNCHANGED <<k, vars, prog, mode, viols, divs, flags>>
+               /\ UNCHANGED <<k, vars, prog, mode, viols, divs, flags, vtag>>
           ELSE Abandon([prop |-> "D", rule |-> "RootProbe", at |-> "runtime"],
                        [got |-> Ev.op, expected |-> "root probe"])
      ELSE
@@ -286,7 +316,7 @@ T_Target ==
             /\ flags' = flags \cup {"C16"}
             /\ cnt' = Bump(cnt, "events")
             /\ run' = [run EXCEPT !.tops = Append(@, Ev.op)]
-            /\ UNCHANGED <<vars, prog, mode, divs>>
+            /\ UNCHANGED <<vars, prog, mode, divs, vtag>>
        ELSE Abandon(Blame(f), [got |-> "target " \o Ev.op, expected |-> x.a])
 
 \* whole-run checks at Runtime::resolve's return
@@ -294,7 +324,7 @@ FinalFindings(res, viaret) ==
   LET fin == prog.final
       okrun == res.r = "ok"
       sfx == IF viaret THEN "AfterReturn" ELSE "" IN
-  (IF okrun /\ ~(InKind(res.v, fin.result) \/ InKind(res.v, fin.returns))
+  (IF okrun /\ ~(InKindExpr(res.v, fin.result) \/ InKindExpr(res.v, fin.returns))
      THEN << [prop |-> "C01", rule |-> "ResultKind" \o sfx, at |-> "program"] >> ELSE <<>>)
   \o (IF okrun /\ ~Ev.faulted /\ ~InKind(Ev.ev, fin.target)
      THEN << [prop |-> "C01", rule |-> "EventKind" \o sfx, at |-> "program"] >> ELSE <<>>)
@@ -327,7 +357,7 @@ T_End ==
           /\ cnt' = LET c1 == Bump(cnt, "events")
                         Fl(c, s) == IF s \in flags THEN Bump(c, s) ELSE c
                     IN Fl(Fl(Fl(Fl(Fl(Fl(c1, "C06"), "C07"), "C08"), "C09"), "C13"), "C16")
-          /\ UNCHANGED <<prog, run, divs, flags>>
+          /\ UNCHANGED <<prog, run, divs, flags, vtag>>
      ELSE \* the root block did not end the way the machine says: blame the pending control effect
           Abandon((IF Len(k) = 1 /\ x.a = "exit" /\ x.hv /\ x.v.o = "ret"
                      THEN [prop |-> "C06", rule |-> "ReturnEndsProgram", at |-> "program"]
@@ -343,7 +373,7 @@ T_Reject ==
   /\ mode' = "idle" /\ k' = <<>>
   /\ cnt' = Bump(Bump(cnt, "events"), "rejected")
   /\ l' = l + 1
-  /\ UNCHANGED <<vars, prog, run, viols, divs, flags>>
+  /\ UNCHANGED <<vars, prog, run, viols, divs, flags, vtag>>
 
 \* a panic of the code under test is data: no action of the machine explains it (C04)
 T_Panic ==
@@ -354,12 +384,12 @@ T_Panic ==
                               prog |-> (IF HasF(Ev, "id") THEN Ev.id ELSE prog.id), line |-> l])
   /\ cnt' = Bump(cnt, "events")
   /\ l' = l + 1
-  /\ UNCHANGED <<vars, prog, run, divs, flags>>
+  /\ UNCHANGED <<vars, prog, run, divs, flags, vtag>>
 
 TraceInit ==
   /\ l = 1 /\ k = <<>> /\ vars = <<>> /\ prog = [id |-> 0] /\ run = [probe |-> FALSE]
   /\ mode = "idle" /\ viols = <<>> /\ divs = <<>>
-  /\ cnt = [c \in CntNames |-> 0] /\ flags = {}
+  /\ cnt = [c \in CntNames |-> 0] /\ flags = {} /\ vtag = <<>>
 
 TraceNext == T_Prog \/ T_Start \/ T_Skip \/ T_Enter \/ T_Exit \/ T_Target \/ T_End \/ T_Reject \/ T_Panic
 
